@@ -112,6 +112,10 @@ def main(ctx):
         if n == 1:
             extra += ["--emit-ir"]
         o = common.run_fontc(path, out, extra=extra, timeout=120, env={"RAYON_NUM_THREADS": str(1 + 3 * n)})
+        if o["how"] == "timedout":  # loaded machine? hangs are C15's business, not a determinism verdict
+            o = common.run_fontc(path, out, extra=extra, timeout=1200, env={"RAYON_NUM_THREADS": str(1 + 3 * n)})
+            if o["how"] == "timedout":
+                raise common.ToolError("fontc timed out twice on %s" % path)
         return item, o, out
 
     cli_items = [(si, n) for si in range(len(srcs)) for n in range(2 if quick else 3)]
